@@ -314,11 +314,12 @@ CHECKS = {
         technique='Lean 4 invariant proof (hash) + invariant oracle after every apply event on the real store',
     ),
     'C10': dict(
-        gens=['Ttl', 'TtlKV'],
-        props=['ZanVerif.Props.C10', 'ZanVerif.Props.C10KV', 'ZanVerif.Props.C10Hash'],
+        gens=['Ttl', 'TtlKV', 'CFilter'],
+        props=['ZanVerif.Props.C10', 'ZanVerif.Props.C10KV', 'ZanVerif.Props.C10Hash', 'ZanVerif.Props.C10Filter'],
         protos=[dict(name='data', mode='oracle', quick_seeds=1, thorough_seeds=1, classes='(expired-visible|resurrection|ttl-|early-removal):'),
                 dict(name='datacorekv', spec=True, quick_seeds=2, thorough_seeds=2, classes='(expired-visible|resurrection|ttl-|panic)'),
-                dict(name='datacorettl', spec=True, quick_seeds=2, thorough_seeds=2, classes='(expired-visible|resurrection|ttl-|panic)')],
+                dict(name='datacorettl', spec=True, quick_seeds=2, thorough_seeds=2, classes='(expired-visible|resurrection|ttl-|panic)'),
+                dict(name='cfilter', mode='cert', quick_seeds=2, thorough_seeds=4, classes='(filter-drops-live|panic)')],
         rule=DATA_RULE,
         trusted=DATA_TRUST,
         partial=['Props/C10KV.lean, C10Hash.lean (executable models, datacorekv / datacorettl): C10_dead_after_expiry_partial excludes DEL / SETIFEQ / DELIFEQ, C10_hash_dead_after_expiry_partial excludes HDEL (witnesses C10_*_false_*, known finding C10-removers-see-expired-generation); C10_no_resurrection (hash) carries the explicit fresh-version hypothesis, witnesses C10_equal_ts_witness(_expiry) by decide on the executable model', 'C10_no_resurrection_partial carries the equal-timestamp proviso (known finding)', 'C10_local_never_early is false on this tree (known finding C10-local-deletion-earliest-ttl); only the oracle covers the local-deletion policy', 'C10_filter_safe (compaction filter) not built'],
@@ -505,3 +506,8 @@ CHECKS['C02'].update(
 CHECKS['C17']['partial'][0] = 'an old layout with MORE partitions than requested can make moveIfUnbalanced index partitionNodes out of range (outcome panicIndex of the model, excluded by the hypothesis old.length <= parts of C17_v2_total / C17_v2_total_full; the partition count of a namespace never shrinks); C17_v2_never_empty_candidates needs no such hypothesis'
 CHECKS['C17']['level_text'] = 'Theorems about the executable Lean model of getRebalancedNamespacePartitions (getNodeNameList, interleave, fillPartitionMapV1, fillPartitionMapV2 with moveIfUnbalanced and both comparators), for all inputs: v1 shape, distinct names, DC spread incl. wrap-around, leader balance; refusal iff too few nodes (over the regenerated guards); v2: every answer has exactly `replica` distinct live names per partition for every duplicate-free old layout, and v2 answers (no panic) for EVERY old layout with no more partitions than requested - old ISR lists of any length, mid-migration lists longer than the replication factor included - so that v2 either refuses (iff too few nodes) or returns a valid layout (C17_v2_total_full); the empty-candidate-set panic is unreachable for every old layout whatsoever (C17_v2_never_empty_candidates); the answer does not depend on the enumeration order of the node map. The model is tied to the code by regenerated decision expressions (guards, ring slot/step, name index, comparators, thresholds, move budget) and by 5k-1M differential evaluations per run, every op also judged by an independent Go oracle.'
 CHECKS['C17']['level_note'] = 'F5 (nil.(loadItem) panic of fillPartitionMapV2 for an old ISR list longer than the replication factor) was found here and is fixed in the repository (the fill loop reuses and excludes only the first `replica` old names); its witnesses are corpus lines; v2 DC spread is oracle-checked only.'
+
+# ---- C10: compaction filter (work package wK)
+CHECKS['C10']['partial'] = [x for x in CHECKS['C10']['partial'] if 'C10_filter_safe' not in x]
+CHECKS['C10']['level_note'] = 'generation model is abstract (hash-shaped); compaction filter: model + theorems + certificate runs of the real filter function with a set clock (the rocksdb compaction itself, the refresh of the cached clock and engine read errors are outside); read-path expiry only far from the boundary (wall clock)'
+CHECKS['C10']['level_text'] = CHECKS['C10']['level_text'] + " Compaction filter (Props/C10Filter.lean over the executable model Data/CFilter.lean; every decision expression of rockCompactFilter.lazyExpireCheck / Filter REGENERATED from rockredis.go with Go's fixed-width arithmetic made explicit, the statement structure around them pinned): for every entry, store and clock, a value-type entry is removed only if its expiry second e satisfies e > 1500000000 and e + 172800 < clock, hence is expired by the regenerated read/write rule at every clock not behind the filter's (e < 2^32 the only size hypothesis); a collection sub-key is removed only if its collection's meta is absent, of another generation, or expired in that sense; a member of the current generation of an unexpired collection and every entry of another key type is kept; removable stays removable at later clocks; exact closed forms of both cases (lazy removal does happen; generations younger than 48 h are kept). On real stores (protocol cfilter, certificate mode): the REAL filter is called with its cached clock set on EVERY raw engine entry of stores built through the store API (all six types, EXPIRE/PERSIST, cleared / deleted / re-created collections, expiry instants up to the largest admitted one, clocks around every expiry and generation +-1 s, +48 h +-1 s, far future); the Lean driver recomputes the decoded generation, the meta lookup and the verdict of every entry with the model; the Go oracle (filter-drops-live) states the property on the raw bytes (own header decoder) and, for partial compactions that physically remove the rejected entries, on the read API."
